@@ -29,7 +29,10 @@ Proof. apply nodup_nat_NoDup. Qed.
 
 Lemma g_sem_local g n e e' : (forall u, In u (g_ups g n) -> e u = e' u) -> g_sem g n e = g_sem g n e'.
 Proof.
-  intros H. unfold g_sem. f_equal. apply map_ext_in. intros i Hi.
-  destruct i as [z|[|u l]]; cbn; try reflexivity. apply H.
-  unfold g_ups. apply nodup_nat_In. apply in_flat_map. exists (IConn (u :: l)). split; [exact Hi|left; reflexivity].
+  intros H. unfold g_sem.
+  assert (E : map (in_val e) (n_ins (g_node g n)) = map (in_val e') (n_ins (g_node g n))).
+  { apply map_ext_in. intros i Hi.
+    destruct i as [z|[|u l]]; cbn; try reflexivity. apply H.
+    unfold g_ups. apply nodup_nat_In. apply in_flat_map. exists (IConn (u :: l)). split; [exact Hi|left; reflexivity]. }
+  rewrite E. reflexivity.
 Qed.
